@@ -57,7 +57,11 @@ func c11Fixed(fields []string) map[string]string {
 		"/fx/part.jet":    `(part {{ .Name }} {{ len(.Tags) }})`,
 		"/fx/ext.jet":     `{{ extends "/fx/layout.jet" }}{{ block body() }}ext-body {{ g_read }}{{ end }}`,
 		"/fx/layout.jet":  `<layout>{{ block body() }}default{{ end }}</layout>`,
-		"/fx/fail.jet":    `before{{ range xs }}{{ .NoField }}{{ end }}after`,
+		// a child that only extends and imports (no blocks of its own); the library it imports has a block of the layout's name
+		"/fx/child2.jet": `{{ extends "/fx/layout.jet" }}{{ import "/fx/lib2.jet" }}`,
+		"/fx/lib2.jet":   `{{ block body() }}body-of-lib2{{ end }}{{ block extra() }}x{{ end }}`,
+		"/fx/child3.jet": `{{ extends "/fx/layout.jet" }}`,
+		"/fx/fail.jet":   `before{{ range xs }}{{ .NoField }}{{ end }}after`,
 		// ranges that find nothing (else branch) next to ranges over the same kinds that do
 		"/fx/emptyrange.jet": `{{ range xs0 }}x{{ else }}no-xs{{ end }}{{ range k, v := m0 }}{{ k }}{{ else }}no-m{{ end }}{{ range i, v := xs }}{{ i }}={{ v }};{{ end }}{{ range k, v := m1 }}{{ k }}:{{ v }};{{ end }}{{ range xs0 }}x{{ else }}{{ range xs }}{{ . }}{{ end }}{{ end }}`,
 		// try inside try inside try, each with output of its own that depends on the data
@@ -85,7 +89,7 @@ func genC11(t *rapid.T) c11Case {
 		}
 	}
 	for n := range c11Fixed(c.Fields) {
-		if n != "/fx/lib.jet" && n != "/fx/part.jet" && n != "/fx/layout.jet" {
+		if n != "/fx/lib.jet" && n != "/fx/part.jet" && n != "/fx/lib2.jet" {
 			names = append(names, n)
 		}
 	}
